@@ -877,6 +877,22 @@ func (p *c20prover) compute(fa *c20fnAn, v ssa.Value) c20iv {
 		}
 		return c20clipKeep(r, tr)
 	case *ssa.BinOp:
+		if x.Op == token.ADD {
+			// pos + n with n <= len(X[pos:]): the sum is at most len(X) in the integers, so it does not wrap around
+			if _, c, ok := p.cursorSum(x); ok && c <= 0 {
+				xr, yr := p.at(x.X, blk), p.at(x.Y, blk)
+				if xr.empty() || yr.empty() {
+					return c20empty
+				}
+				if lo, okLo := c20add(xr.lo, yr.lo); okLo && xr.lo >= 0 && yr.lo >= 0 {
+					hi, okHi := c20add(xr.hi, yr.hi)
+					if !okHi {
+						hi = math.MaxInt64
+					}
+					return c20iv{lo, hi}.meet(tr)
+				}
+			}
+		}
 		return c20arith(x.Op, p.at(x.X, blk), p.at(x.Y, blk), x.Type())
 	case *ssa.UnOp:
 		switch x.Op {
@@ -929,9 +945,48 @@ func (p *c20prover) compute(fa *c20fnAn, v ssa.Value) c20iv {
 		if call, ok := x.Tuple.(*ssa.Call); ok {
 			return p.callResult(call, x.Index, blk).meet(tr)
 		}
+		if nx, ok := x.Tuple.(*ssa.Next); ok && nx.IsString && x.Index == 1 {
+			return c20iv{0, math.MaxInt64 - 1}.meet(tr) // the key of a range over a string: a valid byte offset, < len
+		}
 		return tr
 	}
 	return tr
+}
+
+// cursorSum: x = a + n where n is a result of a call of a repository function that was handed X[a:] and returns at
+// most the length of that argument plus c: then a + n <= len(X) + c over the integers (X[a:] was evaluated before the
+// call, so 0 <= a <= len(X)). The shape of a parser that walks a text with a cursor: n := lex(text[pos:]); pos += n.
+func (p *c20prover) cursorSum(x *ssa.BinOp) (ssa.Value, int64, bool) {
+	if x.Op != token.ADD {
+		return nil, 0, false
+	}
+	try := func(a, n ssa.Value) (ssa.Value, int64, bool) {
+		var call *ssa.Call
+		idx := 0
+		switch y := n.(type) {
+		case *ssa.Call:
+			call = y
+		case *ssa.Extract:
+			call, _ = y.Tuple.(*ssa.Call)
+			idx = y.Index
+		}
+		if call == nil {
+			return nil, 0, false
+		}
+		if sc := call.Call.StaticCallee(); sc == nil || !isRepoFn(sc) {
+			return nil, 0, false
+		}
+		for _, s := range p.symCall(call, idx) {
+			if sl, ok := s.X.(*ssa.Slice); ok && sl.Low == a && sl.High == nil && sl.Max == nil {
+				return sl.X, s.c, true
+			}
+		}
+		return nil, 0, false
+	}
+	if X, c, ok := try(x.X, x.Y); ok {
+		return X, c, true
+	}
+	return try(x.Y, x.X)
 }
 
 func c20clipKeep(r, tr c20iv) c20iv {
@@ -1792,25 +1847,16 @@ func (p *c20prover) lenDef(x ssa.Value, blk *ssa.BasicBlock, seen map[ssa.Value]
 	case *ssa.MakeSlice:
 		return p.at(v.Len, v.Block()).meet(c20nat)
 	case *ssa.Slice:
-		base := p.lenOf(v.X, v.Block(), seen)
-		lo, hi := c20pt(0), base
-		if v.Low != nil {
-			lo = p.at(v.Low, v.Block())
+		r := p.sliceLen(v, seen)
+		if v.High == nil && v.Low != nil && !r.empty() {
+			// text[pos:] under `pos < len(text)`: at least one element is left (low <= len(X) - k gives length >= k)
+			for _, s := range p.symUB(v.Low, v.Block(), nil, 0) {
+				if s.c < 0 && s.c > math.MinInt64 && -s.c > r.lo && -s.c <= r.hi && (s.X == v.X || c20sameMemory(s.X, v.X)) {
+					r.lo = -s.c
+				}
+			}
 		}
-		if v.High != nil {
-			hi = p.at(v.High, v.Block())
-		}
-		if lo.empty() || hi.empty() {
-			return c20nat
-		}
-		r := c20arithRaw(token.SUB, hi, lo)
-		if r.empty() {
-			return c20nat
-		}
-		if hi.hi == math.MaxInt64 {
-			r.hi = math.MaxInt64
-		}
-		return r.meet(c20nat)
+		return r
 	case *ssa.UnOp:
 		if g, ok := v.X.(*ssa.Global); ok && v.Op == token.MUL {
 			return p.globalLen(g)
@@ -2233,6 +2279,11 @@ func (p *c20prover) symUB(v ssa.Value, blk *ssa.BasicBlock, seen map[ssa.Value]b
 		if call, ok := x.Tuple.(*ssa.Call); ok {
 			out = append(out, p.symCall(call, x.Index)...)
 		}
+		if nx, ok := x.Tuple.(*ssa.Next); ok && nx.IsString && x.Index == 1 {
+			if rg, ok := nx.Iter.(*ssa.Range); ok {
+				out = append(out, c20sym{rg.X, -1}) // the key of a range over a string is a valid offset into it
+			}
+		}
 	case *ssa.BinOp:
 		in := x.Block()
 		// inner + k keeps an upper bound shifted by k unless it wraps around upwards, i.e. unless k < 0 and inner is
@@ -2254,6 +2305,8 @@ func (p *c20prover) symUB(v ssa.Value, blk *ssa.BasicBlock, seen map[ssa.Value]b
 				out = append(out, c20symAdd(p.symUB(x.X, in, seen, depth+1), k)...)
 			} else if k, ok := constInt(x.X); ok && noWrapDown(x.Y, k) {
 				out = append(out, c20symAdd(p.symUB(x.Y, in, seen, depth+1), k)...)
+			} else if X, c, ok := p.cursorSum(x); ok {
+				out = append(out, c20sym{X, c})
 			}
 		case token.SUB:
 			if k, ok := constInt(x.Y); ok && k != math.MinInt64 && noWrapDown(x.X, -k) {
@@ -2505,6 +2558,9 @@ func (p *c20prover) proveBounds1(in ssa.Instruction) (bool, string) {
 		if x.Low != nil && p.affineLE(x.Low, x.High, blk) {
 			return true, fmt.Sprintf("bounds %s : %s, length %s, and the low bound is the high bound minus a constant", lo, hi, n)
 		}
+		if x.Low != nil && p.sumLE(x.Low, x.High, blk) {
+			return true, fmt.Sprintf("bounds %s : %s, length %s, and the high bound is the low bound plus a value that is not negative", lo, hi, n)
+		}
 		return false, fmt.Sprintf("low bound in %s may exceed the high bound in %s", lo, hi)
 	}
 	return false, "not an index or slice expression"
@@ -2614,4 +2670,51 @@ func (p *c20prover) affineLE(lo, hi ssa.Value, blk *ssa.BasicBlock) bool {
 	b1, a1, c1, ok1 := p.affine(lo, blk, 0)
 	b2, a2, c2, ok2 := p.affine(hi, blk, 0)
 	return ok1 && ok2 && b1 == b2 && a1 == a2 && c1 <= c2
+}
+
+// sumLE: lo <= hi because hi = lo + n with n >= 0 and the sum does not wrap around (text[pos : pos+n]).
+func (p *c20prover) sumLE(lo, hi ssa.Value, blk *ssa.BasicBlock) bool {
+	b, ok := hi.(*ssa.BinOp)
+	if !ok || b.Op != token.ADD {
+		return false
+	}
+	other := b.Y
+	switch lo {
+	case b.X:
+	case b.Y:
+		other = b.X
+	default:
+		return false
+	}
+	if r := p.at(other, blk); r.empty() || r.lo < 0 {
+		return false
+	}
+	if p.exact(b, blk) {
+		return true
+	}
+	_, c, ok := p.cursorSum(b)
+	return ok && c <= 0
+}
+
+// sliceLen: the length of v = X[low:high] from the intervals of its bounds.
+func (p *c20prover) sliceLen(v *ssa.Slice, seen map[ssa.Value]bool) c20iv {
+	base := p.lenOf(v.X, v.Block(), seen)
+	lo, hi := c20pt(0), base
+	if v.Low != nil {
+		lo = p.at(v.Low, v.Block())
+	}
+	if v.High != nil {
+		hi = p.at(v.High, v.Block())
+	}
+	if lo.empty() || hi.empty() {
+		return c20nat
+	}
+	r := c20arithRaw(token.SUB, hi, lo)
+	if r.empty() {
+		return c20nat
+	}
+	if hi.hi == math.MaxInt64 {
+		r.hi = math.MaxInt64
+	}
+	return r.meet(c20nat)
 }
